@@ -359,6 +359,65 @@ fn run_batch(cfg: &Value) -> Value {
     #[cfg(feature = "model")]
     hook::configure(false, 0);
     #[cfg(not(feature = "model"))]
+    if cfg["attacks"].as_bool().unwrap_or(false) && all_proved {
+        // REAL flavour: concrete attacks that only succeed when a derivation is weaker than documented (replay of C08 / C13 / C14 findings)
+        let proofs: Vec<Vec<u8>> = members.iter().map(|m| m.proof.as_ref().unwrap().to_bytes()).collect();
+        let statements: Vec<RangeStatement<RistrettoPoint>> = members.iter().map(|m| m.statement.clone()).collect();
+        let verify = |forged: &[Vec<u8>]| -> Vec<bool> {
+            let ps: Vec<RistrettoRangeProof> = match forged.iter().map(|b| RistrettoRangeProof::from_bytes(b)).collect::<Result<Vec<_>, _>>() {
+                Ok(p) => p,
+                Err(_) => return vec![false],
+            };
+            // each forged proof must be invalid on its own ...
+            for i in 0..ps.len() {
+                if ps[i] != *members[i].proof.as_ref().unwrap() {
+                    let mut t1 = vec![transcripts[i].clone()];
+                    if RangeProof::verify_batch(&mut t1, &statements[i..i + 1], &ps[i..i + 1], VerifyAction::VerifyOnly).is_ok() {
+                        return vec![false];
+                    }
+                }
+            }
+            // ... and the batch must be refused in both verifying modes
+            [VerifyAction::VerifyOnly, VerifyAction::RecoverAndVerify]
+                .iter()
+                .map(|a| {
+                    let mut ts = transcripts.clone();
+                    RangeProof::verify_batch(&mut ts, &statements, &ps, *a).is_ok()
+                })
+                .collect()
+        };
+        let wa = refimpl::weight_attack(&transcripts, &statements, &proofs, &verify);
+        let mut guesses = Vec::new();
+        let mut opened = Vec::new();
+        for (i, mem) in members.iter().enumerate() {
+            let ext = match members_cfg[i]["rng"].as_str() {
+                Some("zero") => Some(0u8),
+                Some("const") => Some(0x42u8),
+                _ => None,
+            };
+            let ab = prove_out[i]["a_blind"].as_str().map(|h| {
+                let mut b = [0u8; 32];
+                for k in 0..32 {
+                    b[k] = u8::from_str_radix(&h[2 * k..2 * k + 2], 16).unwrap();
+                }
+                curve25519_dalek::ristretto::CompressedRistretto(b).decompress().unwrap()
+            });
+            if let (Some(ext), Some(ab)) = (ext, ab) {
+                guesses.push(json!(refimpl::public_nonce_guess(&transcripts[i], &mem.statement, &proofs[i], &ab, ext)));
+            } else {
+                guesses.push(Value::Null);
+            }
+            let v0: u64 = mem.info["values"][0]["v"].as_str().unwrap().parse().unwrap();
+            let off = v0.wrapping_sub(mem.statement.minimum_value_promises[0].unwrap_or(0));
+            opened.push(match refimpl::open_final_masks_1bit(&transcripts[i], &mem.statement, &proofs[i], off & 1) {
+                Some((r, s)) => json!([env::scalar_id(&r), env::scalar_id(&s)]),
+                None => Value::Null,
+            });
+        }
+        return json!({"members": members.iter().map(|m| m.info.clone()).collect::<Vec<_>>(), "prove": prove_out, "weight_attack": wa, "public_nonce_guess": guesses,
+            "opened_final_masks": opened, "verify": Value::Null});
+    }
+    #[cfg(not(feature = "model"))]
     if cfg["reference_prover"].as_bool().unwrap_or(false) {
         // C19: proofs made by the independent straight-from-the-paper prover must be accepted by the library, masks recovered
         let mut outv = Vec::new();
